@@ -129,6 +129,15 @@ impl<E: FieldElement, H: ElementHasher<BaseField = E::BaseField>> VerifierChanne
             )));
         }
 
+        // a GKR proof is read only when the AIR has a Lagrange kernel column; one that comes with
+        // a proof for an AIR without such a column would be content that nothing checks
+        if gkr_proof.is_some() && !air.context().has_lagrange_kernel_aux_column() {
+            return Err(VerifierError::ProofDeserializationError(
+                "the proof contains a GKR proof, but the trace has no Lagrange kernel column"
+                    .to_string(),
+            ));
+        }
+
         Ok(VerifierChannel {
             // trace queries
             trace_roots,
